@@ -1,5 +1,6 @@
 import GBS.Lemmas.GenClosed
 import GBS.Extracted.Choose
+import GBS.Props.C03
 import Mathlib.Tactic.Ring
 import Mathlib.Tactic.FieldSimp
 import Mathlib.Tactic.Linarith
@@ -291,6 +292,45 @@ example : chooseProbs [5, 5] = [1/2, 1/2] := by decide +kernel
 /-! ## the translated `choose_compatible_weight` -/
 
 theorem chooseSumX_eq (l : List Rat) : chooseSumX l = sumRat l := rfl
+
+/-- the indices (from `n` on) of the entries that satisfy `P` -/
+def idsWhere (P : Desc × Nat → Bool) : Nat → List Desc → List Nat
+  | _, [] => []
+  | n, o :: os => if P (o, n) then n :: idsWhere P (n + 1) os else idsWhere P (n + 1) os
+
+/-- a `for i, x in enumerate(l): if P: acc.append(i)` loop collects exactly the indices where `P` holds, in increasing order -/
+theorem foldl_append_idx (P : Desc × Nat → Bool) (bds : List Desc) (n : Nat) (acc : List Nat) :
+    (bds.zipIdx n).foldl (fun acc p => if P p then acc ++ [p.2] else acc) acc = acc ++ idsWhere P n bds := by
+  induction bds generalizing n acc with
+  | nil => simp [idsWhere]
+  | cons o os ih =>
+    simp only [List.zipIdx_cons, List.foldl_cons, idsWhere]
+    rw [ih]
+    by_cases h : P (o, n) = true <;> simp [h]
+
+set_option linter.unusedSimpArgs false in
+/-- **C08 / C03 (tie by translation: the compatible indices)**: `compatIdsX` is regenerated on every run from the loop of
+`get_compatible_bond_descriptor_ids` (core.py); it is the model's `compatibleIds`, the option list of every pick of the generation model
+(`choose`): the `bond is None` case and the index order are those of the code as written now; receiver and argument of `is_compatible` may
+stand either way round (the relation is symmetric, `C03_symm`). -/
+theorem C08_translated_compatIds (bds : List Desc) (b : Option Desc) : compatIdsX bds b = compatibleIds bds b := by
+  unfold compatIdsX compatibleIds
+  refine (foldl_append_idx _ bds 0 []).trans ?_
+  simp only [List.nil_append]
+  generalize 0 = n
+  cases b with
+  | none =>
+    simp only [Option.isNone_none, Bool.true_or]
+    induction bds generalizing n with
+    | nil => rfl
+    | cons o os ih => simp [idsWhere, compatibleIdsFrom, ih]
+  | some bond =>
+    simp only [Option.isNone_some, Bool.false_or]
+    induction bds generalizing n with
+    | nil => rfl
+    | cons o os ih =>
+      have hs := C03_symm o bond
+      by_cases hc : isCompatible bond o = true <;> simp [idsWhere, compatibleIdsFrom, ih, hc, hs]
 
 /-- **C08 (tie by translation)**: `chooseWeightsX` is regenerated on every run from the source of `choose_compatible_weight`
 (`Extracted/Choose.lean`: the statements between the collection of the compatible descriptors' weights and the call of
